@@ -1065,7 +1065,7 @@ func (x *Exec) pureApp(st *State, f *ssa.Function, args []Val) Val {
 	if x.L.isRepoFunc(f) && len(f.Blocks) > 0 && f.Signature.Results().Len() == 1 && x.specDepth < 3 {
 		ctr := x.contractFor(f)
 		if ctr == nil || ctr.Inline {
-			if v, ok := x.execAsSpec(st, f, args); ok {
+			if v, ok := x.execAsSpec(st, f, args, nil); ok {
 				return v
 			}
 		}
@@ -1213,7 +1213,7 @@ func (x *Exec) mapLen(st *State, m Term, mt *types.Map) Term {
 
 // execAsSpec runs f symbolically from st (on a scratch copy) and returns its
 // result as an ite-chain over its paths. Obligations inside are not emitted.
-func (x *Exec) execAsSpec(st *State, f *ssa.Function, args []Val) (Val, bool) {
+func (x *Exec) execAsSpec(st *State, f *ssa.Function, args []Val, clo *Closure) (Val, bool) {
 	if f.TypeParams().Len() > 0 && len(f.TypeArgs()) == 0 {
 		return Val{}, false
 	}
@@ -1234,7 +1234,7 @@ func (x *Exec) execAsSpec(st *State, f *ssa.Function, args []Val) (Val, bool) {
 	x.inlineStack = append(x.inlineStack, f)
 	x.L.indexDebugRefs(f)
 	var facts [][2]Term
-	x.runFunction(f, scratch, args, nil, 1, func(s2 *State, rs []Val) {
+	x.runFunction(f, scratch, args, clo, 1, func(s2 *State, rs []Val) {
 		if len(rs) != 1 {
 			return
 		}
